@@ -251,7 +251,7 @@ Proof. destruct v; reflexivity. Qed.
 Theorem metadata_validate_total d :
   is_exc (metadata_validate is_valid_url scopes_supported grant_types_supported response_types_supported d) = false.
 Proof.
-  unfold metadata_validate, claim_types.
+  unfold metadata_validate, claim_types, typed_members.
   destruct (first_bad str_list d ARRAY_CLAIMS) eqn:Ea; [reflexivity|].
   destruct (first_bad is_str d STRING_CLAIMS) eqn:Es; [reflexivity|].
   pose proof (first_bad_none _ _ _ Ea) as HA. pose proof (first_bad_none _ _ _ Es) as HS.
@@ -288,10 +288,25 @@ Proof.
     - destruct v; try (destruct (ok _); [intros H; apply IH in H; tauto | intros H; injection H as <-; rewrite E; split; [auto|discriminate]]).
       intros H; apply IH in H; tauto.
     - intros H; apply IH in H; tauto. }
-  unfold claim_types. destruct (first_bad str_list d ARRAY_CLAIMS) eqn:Ea.
+  unfold claim_types, typed_members. destruct (first_bad str_list d ARRAY_CLAIMS) eqn:Ea.
   - intros H; injection H as <-. apply G in Ea. rewrite in_app_iff. tauto.
   - destruct (first_bad is_str d STRING_CLAIMS) eqn:Es; [|discriminate].
     intros H; injection H as <-. apply G in Es. rewrite in_app_iff. tauto.
+Qed.
+
+(* for any two lists of member names: the check never raises; when it passes, every listed member is absent, null or of its type;
+   when it refuses, it names a listed member that is present *)
+Theorem typed_members_total arrays strings d : is_exc (typed_members arrays strings d) = false.
+Proof. unfold typed_members. destruct (first_bad str_list d arrays); [reflexivity|]. destruct (first_bad is_str d strings); reflexivity. Qed.
+
+Theorem typed_members_sound arrays strings d :
+  typed_members arrays strings d = Val tt ->
+  (forall k, In k arrays -> member d k = PNone \/ str_list (member d k) = true) /\
+  (forall k, In k strings -> member d k = PNone \/ is_str (member d k) = true).
+Proof.
+  unfold typed_members. destruct (first_bad str_list d arrays) eqn:Ea; [discriminate|].
+  destruct (first_bad is_str d strings) eqn:Es; [discriminate|]. intros _.
+  split; [exact (first_bad_none _ _ _ Ea) | exact (first_bad_none _ _ _ Es)].
 Qed.
 
 Theorem metadata_validate_unguarded_reaches_exc :
